@@ -64,6 +64,26 @@ def programs():
                  "P p = new P(1); p.next.v = 3;", "P p = null; destroy p; echo(1);", "P p = new P(2); destroy p; echo(p.v);",
                  "P p = new P(2); p = null; p = null; echo(p == null);"]:
         out.append(("null " + body[:30], cls + "function main() -> void { %s }\n" % body))
+    # null receivers of VIRTUAL / overridden / static / inherited methods, the null held in a typed variable, field, parameter, array
+    # element or returned by a function (the receiver carries a static class but no object)
+    vcls = ("class Shape { public Shape peer; public constructor() -> Shape { this.peer = null; return this; } public virtual function area() -> int { return 0; } "
+            "public function name() -> int { return 1; } public static function kind() -> int { return 9; } }\n"
+            "class Square extends Shape { public constructor() -> Square { super(); return this; } public override function area() -> int { return 4; } }\n"
+            "function pick(boolean some) -> Shape { if (some) { return new Square(); } return null; }\nfunction areaOf(Shape s) -> int { return s.area(); }\n")
+    for body in ["Shape b = pick(false); echo(b.area());", "Shape b = pick(false); echo(b.name());", "echo(pick(false).area());", "Square q = null; echo(q.area());",
+                 "Shape a = pick(true); echo(a.area()); echo(a.peer.area());", "echo(areaOf(null));", "Shape b = null; echo(areaOf(b));",
+                 "Shape a = pick(true); a.peer = pick(false); echo(areaOf(a.peer));", "Square q = null; Shape s = q; echo(s.area());",
+                 "Shape a = pick(true); a = null; echo(a.area());", "Shape b = pick(false); b.peer = b; echo(1);"]:
+        out.append(("null virtual " + body[:40], vcls + "function main() -> void { %s }\n" % body))
+    # element assignment whose value / index expression replaces the target field array by a shorter (or longer) one: the index is
+    # checked against the array that is stored into
+    scls = ("class Buf { public int[] data = {1, 2, 3, 4, 5, 6, 7, 8}; public float[] fs = {1.0f, 2.0f, 3.0f}; public constructor() -> Buf = default;\n"
+            "  public function shrink() -> int { data = {7}; return 3; }\n  public function shrinkf() -> float { fs = {0.5f}; return 1.5f; }\n  public function grow() -> int { int[4000] big; data = big; return 5; }\n"
+            "  public function a() -> void { data[7] = shrink(); echo(data); }\n  public function b() -> void { data[shrink()] = 1; echo(data); }\n"
+            "  public function c() -> void { data[3000] = grow(); echo(data[3000]); }\n  public function d() -> void { fs[2] = shrinkf(); echo(fs); }\n"
+            "  public function e() -> void { data[grow() - 5 + 7] = shrink(); echo(data); }\n}\n")
+    for m in "abcde":
+        out.append(("element assignment into a replaced field array " + m, scls + "function main() -> void { Buf u = new Buf(); u.%s(); echo(\"end\"); }\n" % m))
     # deep hierarchy with overloaded virtual methods, every declaration order of the overloads
     overloads = ["public virtual function f(int a) -> string { return \"%s.f(int)\"; }",
                  "public virtual function f(long a) -> string { return \"%s.f(long)\"; }",
